@@ -121,9 +121,14 @@ fn resolve_foreign_keys(
         let value = match values.get_value_at(&locale, &value_path) {
             Some(value) => value,
             // the key holding the foreign key may have been merged into a plural (`key_one`, `key_ordinal_other`, ..)
-            None => merged_plural_path(&value_path)
+            None => match merged_plural_path(&value_path)
                 .and_then(|path| values.get_value_at(&locale, &path))
-                .unwrap_at("resolve_foreign_keys_1"),
+            {
+                Some(value) => value,
+                // the value that held the foreign key is gone: its key was declared twice in the file
+                // and the last declaration replaced it, so there is nothing left to resolve.
+                None => continue,
+            },
         };
         value.resolve_foreign_key(values, &locale, default_locale, &value_path)?;
     }
